@@ -954,6 +954,33 @@ def h10_release(ctx, cg):
             continue
         en, ex = a["__enter__"][1], a["__exit__"][1]
         short = q.rsplit(".", 1)[-1]
+        # releases registered on entry and run on exit (`self._undo.callback(self.writer.remove, mark)` ... `self._undo.close()`)
+        for c in walk_no_nested(en.node):
+            if not (isinstance(c, ast.Call) and isinstance(c.func, ast.Attribute) and c.func.attr in ("callback", "push", "register") and c.args
+                    and isinstance(c.args[0], ast.Attribute) and self_attr(c.args[0].value)):
+                continue
+            holder = self_attr(c.args[0].value)
+            hq = cg.attr_type(q, holder)
+            target = m.method(hq, c.args[0].attr) if hq else None
+            pr = _partial_release(m, target) if target is not None else None
+            if pr is None:
+                continue
+            n += 1
+            field, op = pr
+            views = _field_views(m, hq, field)
+            arg = c.args[1] if len(c.args) > 1 else None
+            fresh = any(isinstance(t, ast.Compare) and len(t.ops) == 1 and isinstance(t.ops[0], (ast.In, ast.NotIn)) and arg is not None
+                        and norm(t.left) == norm(arg) and isinstance(t.comparators[0], ast.Attribute) and t.comparators[0].attr in views
+                        and (isinstance(t.ops[0], ast.NotIn) == pol) for t, pol in flatten_conditions(dominating_conditions(c)))
+            tshort = target.qual.rsplit(".", 2)[-2] + "." + target.qual.rsplit(".", 1)[-1]
+            if fresh:
+                ctx.proved("H10", en.file, en.short, c, f"{short}: self.{holder}.{c.args[0].attr}", "the release is registered only for elements that were absent on entry")
+            else:
+                ctx.violation("H10", en.file, en.short, c, f"{short}: self.{holder}.{c.args[0].attr}",
+                              f"{short}.__enter__ registers {tshort} (`self.{field}.{op}(...)`, {PARTIAL_REMOVALS.get(op, 'raises when absent')}) "
+                              f"to run on exit for every element, also for those an enclosing context of the same kind had already added and "
+                              f"will release again; nested contexts for the same mark occur when an edit prints a sub-edit inside its own "
+                              f"strike/underline context (CSV leaf cells, coloured full diff)")
         for c in walk_no_nested(ex.node):
             if not (isinstance(c, ast.Call) and isinstance(c.func, ast.Attribute) and self_attr(c.func.value)
                     and len(c.args) == 1):
